@@ -881,6 +881,13 @@ class Interp:
         return self.getitem(v, k, e)
 
     def getitem(self, v, k, node=None):
+        if isinstance(v, Obj) and v.cls == "Match" and isinstance(k, Const) and isinstance(v.fields.get("groups"), DictS):
+            # match["name"] is match.group("name")
+            if k.v in v.fields["groups"].items:
+                return v.fields["groups"].items[k.v]
+            if k.v == 0 and isinstance(v.fields.get("text"), (Const, Leaf)):
+                return v.fields["text"]
+            raise _Raise(f"IndexError: no such group {k.v!r}", ["IndexError", "LookupError", "Exception", "BaseException", "object"])
         if isinstance(v, Obj) and "__getitem__" in v.fields:
             return self.call(v.fields["__getitem__"], [k], {}, node)
         if isinstance(v, Obj) and getattr(v, "klass", None) is not None and self.find_class_attr(v.klass[0], v.klass[1], "__getitem__") is not None:
@@ -1133,6 +1140,8 @@ class Interp:
             return list(v.elts)
         if isinstance(v, DictS):
             return [Const(k) for k in v.items]
+        if isinstance(v, Obj) and v.cls != "Group" and ("__iter__" in v.fields or (getattr(v, "klass", None) is not None and self.find_class_attr(v.klass[0], v.klass[1], "__iter__") is not None)):
+            return self.iterate(self.call(self.getattr(v, "__iter__", node), [], {}, node), node)
         if isinstance(v, Const) and isinstance(v.v, (list, tuple, str, set, frozenset)):
             return [Const(x) for x in v.v]
         if isinstance(v, Obj) and v.cls == "Group":
